@@ -489,7 +489,7 @@ DoGenesis(s, m) ==
   IN [st |-> s1, ok |-> TRUE, err |-> "", xfers |-> <<>>, hooks |-> <<>>]
 
 ----------------------------------------------------------------------------
-Do(s, m) ==
+Do0(s, m) ==
   CASE m.a \in {"CreateFixed", "CreateBatch"} -> DoCreate(s, m)
     [] m.a = "Cancel"        -> DoCancel(s, m)
     [] m.a = "AddAllowed"    -> DoAddAllowed(s, m)
@@ -502,13 +502,94 @@ Do(s, m) ==
     [] m.a = "UpdateParams"  -> DoUpdateParams(s, m)
     [] m.a = "Genesis"       -> DoGenesis(s, m)
 
+
+----------------------------------------------------------------------------
+(* Extension hooks (keeper/hooks.go, types/hooks.go MultiFundraisingHooks, module.go      *)
+(* InvokeSetHooks).  s.nl listeners are registered; every hook site of a successful        *)
+(* operation calls listeners 1..nl in order with the values the operation used.  An input  *)
+(* may name one hook and one listener position at which that listener returns an error:    *)
+(* the dispatcher stops there and the operation fails with nothing committed.              *)
+HF(m) == IF "hookFail" \in DOMAIN m THEN m.hookFail ELSE ""
+HP(m) == IF "hookPos" \in DOMAIN m THEN m.hookPos ELSE 0
+
+CreateArgs(m, id) ==
+  IF m.a = "CreateFixed"
+  THEN [id |-> id, by |-> m.by, price |-> m.price, sellDenom |-> m.sellDenom, sellAmt |-> m.sellAmt,
+        payDenom |-> m.payDenom, sched |-> m.sched, start |-> m.start, end |-> m.end]
+  ELSE [id |-> id, by |-> m.by, price |-> m.price, minPrice |-> m.minPrice, sellDenom |-> m.sellDenom,
+        sellAmt |-> m.sellAmt, payDenom |-> m.payDenom, sched |-> m.sched, maxExt |-> m.maxExt,
+        rate |-> m.rate, start |-> m.start, end |-> m.end]
+
+Site(h, args) == [h |-> h, args |-> args]
+
+SettleSite(s, idx) ==
+  LET a    == s.auctions[idx]
+      bids == s.bids[idx]
+  IN IF a.type = "F"
+     THEN Site("BeforeSellingCoinsAllocated",
+               [id |-> a.id, alloc |-> [u \in Users |-> BidderTotal(bids, u, a.payDenom)], refund |-> ZeroU])
+     ELSE LET cl == Clearing(bids, s.allowed[idx], a.sellAmt) IN
+          Site("BeforeSellingCoinsAllocated",
+               [id |-> a.id, alloc |-> cl.got,
+                refund |-> [u \in Users |-> ReservedBy(bids, u, a.payDenom) - cl.pay[u]]])
+
+RECURSIVE BlockSites(_, _, _)
+BlockSites(s, r, idx) ==
+  IF idx > Len(s.auctions) THEN <<>>
+  ELSE (IF s.auctions[idx].status = "Started" /\ r.st.auctions[idx].status \in {"Vesting", "Finished"}
+        THEN <<SettleSite(s, idx)>> ELSE <<>>) \o BlockSites(s, r, idx + 1)
+
+(* the hook sites of a successful operation, in call order *)
+HookSites(s, m, r) ==
+  CASE m.a = "CreateFixed" ->
+         <<Site("BeforeFixedPriceAuctionCreated", CreateArgs(m, -1)), Site("AfterFixedPriceAuctionCreated", CreateArgs(m, s.aseq))>>
+    [] m.a = "CreateBatch" ->
+         <<Site("BeforeBatchAuctionCreated", CreateArgs(m, -1)), Site("AfterBatchAuctionCreated", CreateArgs(m, s.aseq))>>
+    [] m.a = "Cancel" -> <<Site("BeforeAuctionCanceled", [id |-> m.id, by |-> m.by])>>
+    [] m.a = "Bid" ->
+         <<Site("BeforeBidPlaced", [id |-> m.id, bid |-> s.bseq[m.id + 1] + 1, by |-> m.by, type |-> m.type,
+                                    price |-> m.price, denom |-> m.denom, amt |-> m.amt])>>
+    [] m.a = "Modify" ->
+         <<Site("BeforeBidModified", [id |-> m.id, bid |-> m.bid, by |-> m.by, type |-> s.bids[m.id + 1][m.bid].type,
+                                      price |-> m.price, denom |-> m.denom, amt |-> m.amt])>>
+    [] m.a = "AddAllowed" ->
+         <<Site("BeforeAllowedBiddersAdded",
+                [entries |-> [i \in 1..Len(m.entries) |-> [id |-> m.id, u |-> m.entries[i].u, cap |-> m.entries[i].cap]]])>>
+    [] m.a = "UpdateAllowed" -> <<Site("BeforeAllowedBidderUpdated", [id |-> m.id, u |-> m.u, cap |-> m.cap])>>
+    [] m.a = "Block" -> BlockSites(s, r, 1)
+    [] OTHER -> <<>>
+
+IsAfterHook(h) == h \in {"AfterFixedPriceAuctionCreated", "AfterBatchAuctionCreated"}
+CallsOf(site, n) == [l \in 1..n |-> [h |-> site.h, l |-> l, args |-> site.args, seen |-> IsAfterHook(site.h)]]
+
+RECURSIVE AllCalls(_, _, _)
+AllCalls(sites, k, n) == IF k > Len(sites) THEN <<>> ELSE CallsOf(sites[k], n) \o AllCalls(sites, k + 1, n)
+
+FirstSite(sites, h) ==
+  LET S == {k \in 1..Len(sites) : sites[k].h = h} IN
+  IF S = {} THEN 0 ELSE CHOOSE k \in S : \A j \in S : k <= j
+
+WithHooks(s, m, r) ==
+  IF ~r.ok THEN r
+  ELSE LET sites == HookSites(s, m, r)
+           k     == IF HF(m) = "" \/ HP(m) < 1 \/ HP(m) > s.nl THEN 0 ELSE FirstSite(sites, HF(m))
+       IN IF k = 0 THEN [r EXCEPT !.hooks = AllCalls(sites, 1, s.nl)]
+          ELSE [Fail(s, "hook") EXCEPT !.hooks = AllCalls(SubSeq(sites, 1, k - 1), 1, s.nl) \o CallsOf(sites[k], HP(m))]
+
+(* TRUE iff the listener failure named in the input is reached by this operation *)
+Vetoed(s, m) ==
+  /\ s.nl > 0 /\ HF(m) # "" /\ HP(m) >= 1 /\ HP(m) <= s.nl
+  /\ LET r == Do0(s, m) IN r.ok /\ FirstSite(HookSites(s, m, r), HF(m)) > 0
+
+Do(s, m) == IF s.nl = 0 THEN Do0(s, m) ELSE WithHooks(s, m, Do0(s, m))
+
 InitState(bal0, params0, switch0) ==
   [now |-> 0, params |-> params0, aseq |-> 0, auctions |-> <<>>, allowed |-> <<>>,
    bids |-> <<>>, bseq |-> <<>>, vqs |-> <<>>, lastMatched |-> <<>>,
    bal |-> [x \in Accts |-> IF x \in Users THEN bal0[x] ELSE [d \in Denoms |-> 0]],
    fp |-> [d \in Denoms |-> 0],
    supply |-> [d \in Denoms |-> Sum([k \in 1..Len(UserSeq) |-> bal0[UserSeq[k]][d]])],
-   switchOn |-> switch0]
+   switchOn |-> switch0, nl |-> 0]
 
 NoFee == [d |-> "dF", n |-> 0]
 
